@@ -116,10 +116,6 @@ def dominating_conditions(node, stop=None):
         p = parent(cur)
         if p is None:
             break
-        if isinstance(p, (ast.FunctionDef, ast.AsyncFunctionDef, ast.Lambda)) and cur is not node:
-            # stop at the function boundary (conditions outside do not dominate calls of the function)
-            if stop is None:
-                break
         if isinstance(p, ast.If):
             if cur in p.body:
                 out.append((p.test, True, p))
@@ -161,6 +157,9 @@ def dominating_conditions(node, stop=None):
                             o = o[0].orelse
                     elif isinstance(s, ast.If) and s.orelse and terminates(s.orelse) and not terminates(s.body):
                         out.append((s.test, True, s))
+        if isinstance(p, (ast.FunctionDef, ast.AsyncFunctionDef, ast.Lambda)):
+            # stop at the function boundary (conditions outside do not dominate calls of the function)
+            break
         cur = p
     return out
 
